@@ -78,26 +78,34 @@ PosOK(old, new, par, rep) ==
                /\ TrackOK(old.track, new.track, old, new, FALSE)
                /\ new.cs = old.cs /\ new.vel = old.vel
 
+\* components of a record that changed although the frame's payload does not carry them
+Changed(old, new, allowed) ==
+     (IF "cs" \notin allowed /\ new.cs # old.cs THEN {"changed_cs"} ELSE {})
+  \cup (IF "vel" \notin allowed /\ new.vel # old.vel THEN {"changed_vel"} ELSE {})
+  \cup (IF "pos" \notin allowed /\ (new.even # old.even \/ new.odd # old.odd \/ new.pos # old.pos \/ new.dist # old.dist)
+        THEN {"changed_position"} ELSE {})
+  \cup (IF "pos" \notin allowed /\ new.track # old.track THEN {"changed_track"} ELSE {})
+
 \* which parts of a record an ES frame may change, by payload
 RecDiff(old, new, b) ==
   LET e == Expect(b)  k == e.mek  r == VelRaw(b, 32) IN
      (IF new.n = old.n + 1 THEN {} ELSE {"n"})
   \cup
      (CASE k = 1 -> (IF new.cs.some = 1 /\ CallsignOK(new.cs.s, CsFull(b)) THEN {} ELSE {"cs"})
-                    \cup (IF [new EXCEPT !.cs = old.cs, !.n = old.n] = old THEN {} ELSE {"untouched"})
+                    \cup Changed(old, new, {"cs"})
         [] k = 4 -> IF HasDerived(r)
                     THEN (IF new.vel.some = 7 /\ HeadingOK(new.vel.h, East(r), North(r)) THEN {} ELSE {"heading"})
                          \cup (IF new.vel.some = 7 /\ SpeedOK(new.vel.g, East(r), North(r)) THEN {} ELSE {"speed"})
                          \cup (IF new.vel.some = 7 /\ new.vel.v = VRate(r) THEN {} ELSE {"vrate"})
-                         \cup (IF [new EXCEPT !.vel = old.vel, !.n = old.n] = old THEN {} ELSE {"untouched"})
-                    ELSE (IF [new EXCEPT !.n = old.n] = old THEN {} ELSE {"untouched"})
+                         \cup Changed(old, new, {"vel"})
+                    ELSE Changed(old, new, {})
         [] k \in {3, 5} -> LET alt == IF e.tc \in (9..18) \cup (20..22) THEN Loose(b).alt ELSE {-1}
                                rep == [some |-> 1, lat |-> e.lat, lon |-> e.lon,
                                        alt |-> IF e.f = 0 THEN new.even.alt ELSE new.odd.alt]
                                stored == IF e.f = 0 THEN new.even ELSE new.odd
                            IN (IF PosOK(old, new, e.f, rep) THEN {} ELSE {"position"})
                               \cup (IF stored.some = 0 \/ stored.alt \in alt THEN {} ELSE {"altitude"})
-        [] OTHER -> IF [new EXCEPT !.n = old.n] = old THEN {} ELSE {"untouched"})
+        [] OTHER -> Changed(old, new, {}))
 
 \* derived views of one observed record (C14)
 ViewDiff(o) ==
@@ -145,8 +153,8 @@ SerdeDiff(ev) ==
 
 OwnerOf(f) ==
   CASE f \in {"n", "added", "tracked_set", "isolation", "other_format_changed_state", "duplicate_record", "record_missing", "untouched"} -> "C12"
-    [] f \in {"position"} -> "C13"
-    [] f \in {"cs", "heading", "speed", "vrate", "altitude", "dist_iff_pos", "all_position", "details", "details_missing",
+    [] f \in {"position", "changed_position"} -> "C13"
+    [] f \in {"cs", "heading", "speed", "vrate", "altitude", "changed_cs", "changed_vel", "changed_track", "dist_iff_pos", "all_position", "details", "details_missing",
               "display", "pos_without_pair"} -> "C14"
     [] f \in {"expired_set", "survivor_changed"} -> "C15"
     [] f \in {"serde_failed", "serde_roundtrip"} -> "C20"
